@@ -356,6 +356,21 @@ def _mk_dflt():
 _mk_dflt()
 
 
+def _mk_dflt_task():
+    # default argument that is a *task call* whose subtree reads the context
+    m_default = TASKS["ctx_child"]("k.sub", "none")
+
+    def dflt_task(x, m=m_default):
+        trace.enter("dflt_task", x, m)
+        return [x, m]
+    DEFAULTS["dflt_task"] = {"m": C("ctx_child", V("k.sub"), V("none"))}
+    LEAF["dflt_task"] = lambda x, m: [x, m]
+    TASKS["dflt_task"] = task(name="dflt_task", namespace="vwf", source="dflt_task:v1")(dflt_task)
+
+
+_mk_dflt_task()
+
+
 # ---- handles --------------------------------------------------------------------------------------
 from redun import Handle  # noqa: E402
 
